@@ -365,9 +365,11 @@ func c15History(c *Ctx, r *gen.R, nops int, sample bool) {
 	// lists
 	nlist := r.Range(1, 2)
 	for i := 0; i < nlist; i++ {
-		in := wlInput(r, 2, 6, false, false) // capitalisable words only: choice records must not depend on which word sits at an index
-		for try := 0; try < 50 && !oracle.PremiseHolds(oracle.Normalize(in)); try++ {
-			in = wlInput(r, 2, 6, false, false) // two entries sharing a title-cased form make the record ambiguous
+		// capitalisable words only (choice records must not depend on which word sits at an index), but the
+		// input may hold capitalised twins: normalisation removes them
+		in := wlInput(r, 2, 6, true, false)
+		for try := 0; try < 50 && !(oracle.PremiseHolds(oracle.Normalize(in)) && oracle.AllCapitalizable(oracle.Normalize(in))); try++ {
+			in = wlInput(r, 2, 6, true, false) // two entries sharing a title-cased form make the record ambiguous
 		}
 		backing := make([]string, len(in), len(in)+2)
 		copy(backing, in)
@@ -448,6 +450,11 @@ func c15History(c *Ctx, r *gen.R, nops int, sample bool) {
 				c.Count("field_updates", 1)
 			} else if len(pool.wls) > 0 {
 				w := pool.wls[r.Intn(len(pool.wls))]
+				if r.Chance(1, 4) { // the caller goes on with a value copy of the recipe
+					cp := *w.rec
+					w.rec = &cp
+					c.Count("recipe_value_copies", 1)
+				}
 				switch r.Intn(5) {
 				case 0:
 					w.rec.Length = r.Range(1, 6)
@@ -456,8 +463,12 @@ func c15History(c *Ctx, r *gen.R, nops int, sample bool) {
 					w.model.Scheme = schemes[r.Intn(5)]
 					w.rec.Capitalize = spg.CapScheme(w.model.Scheme)
 				case 2:
+					wasFunc := w.model.SepKind != "char"
 					w.model.SepKind, w.model.SepChar, w.model.SepRec = "char", []string{"", "_", "¡"}[r.Intn(3)], nil
-					w.rec.SeparatorFunc, w.rec.SeparatorChar = nil, w.model.SepChar
+					w.rec.SeparatorChar = w.model.SepChar
+					if wasFunc { // a caller who never set a function only assigns the character
+						w.rec.SeparatorFunc = nil
+					}
 				case 3:
 					name := presetNames[r.Intn(len(presetNames))]
 					w.model.SepKind, w.model.Preset, w.model.SepRec = "preset", name, nil
